@@ -2,6 +2,7 @@ INIT MCInit
 NEXT XNext
 CONSTANTS
   Stacks = {"wsgi", "asgi"}
+  Framings <- MCFramings
   CTypes <- MCCTypes
   HandlerOf <- MCHandlerOf
   BodyKinds <- MCBodyKinds
